@@ -8,9 +8,11 @@ import (
 	"io"
 	"net/http"
 	"net/url"
+	"runtime"
 	"strconv"
 	"strings"
 	"sync"
+	"time"
 
 	"github.com/fullstorydev/grpchan/httpgrpc"
 	"google.golang.org/grpc"
@@ -132,6 +134,7 @@ type hcScript struct {
 	afterMany   []string // results of the RecvMsg calls that came after that verdict
 	recvAll     []string // every RecvMsg result in order
 	afterCancel []string // results of RecvMsg calls issued after the script ended the context
+	readerLeft  bool     // the reader goroutine was still alive after the second-response verdict had been returned
 }
 
 func (sc *hcScript) line() string {
@@ -437,6 +440,16 @@ func runHCScript(rng *Rng, respStream bool, nsteps int, fixed []string) *hcScrip
 			sc.steps = append(sc.steps, exec(op))
 		}
 	}
+	// once RecvMsg has reported the second response of a single-response method the call is over for the caller: the
+	// reader goroutine must be gone by itself (the stream cancels its own context), whatever else the server still sends
+	if sc.tooMany {
+		eng.settle()
+		deadline := time.Now().Add(300 * time.Millisecond)
+		for stacksWith("httpgrpc.(*clientStream).doHttpCall") > 0 && time.Now().Before(deadline) {
+			time.Sleep(2 * time.Millisecond)
+		}
+		sc.readerLeft = stacksWith("httpgrpc.(*clientStream).doHttpCall") > 0
+	}
 	// drain: answer the round trip, end the body, end the context: nothing may remain blocked
 	if !rtAnswered {
 		sc.steps = append(sc.steps, exec("t.fail"))
@@ -525,6 +538,10 @@ func hcOracle(r *Run, prop string, sc *hcScript) (nontrivial bool) {
 		}
 	case "C05":
 		nontrivial = true
+		if sc.readerLeft {
+			r.Violate("http-client/stream/reader-goroutine-left-after-verdict", "after a call has completed and been consumed no goroutine of the library remains",
+				"RecvMsg had returned the Internal error for a second response, yet the reader goroutine (doHttpCall) was still alive: nothing but the caller's own context would ever release it", desc, line)
+		}
 		if len(sc.stillBusy) > 0 {
 			r.Violate("http-client/stream/blocked-after-completion", "once the call has completed or its context is done every client operation completes", fmt.Sprint(sc.stillBusy), desc, line)
 		}
@@ -551,6 +568,7 @@ var hcRaceScripts = [][]string{
 	{"t.reply", "t.item:data:202", "t.item:data:203", "t.item:trailer:1", "cr.recv", "cr.recv"},
 	{"t.reply", "t.item:data:202", "t.item:data:203", "t.item:badtrailer", "cr.recv", "cr.recv"},
 	{"t.reply", "t.item:data:201", "cr.recv", "t.burst:202:0", "cr.recv", "cr.recv"},
+	{"t.reply", "t.item:data:201", "t.item:data:202", "t.item:data:203", "cr.recv", "cr.recv"},
 }
 
 func hcSuite(r *Run, prop string) {
@@ -614,4 +632,20 @@ func hcSuite(r *Run, prop string) {
 			r.Sample(sc.desc())
 		}
 	}
+}
+
+// stacksWith counts the goroutines whose stack mentions the given function.
+func stacksWith(fn string) int {
+	n := runtime.Stack(stackBuf, true)
+	for n == len(stackBuf) {
+		stackBuf = make([]byte, 2*len(stackBuf))
+		n = runtime.Stack(stackBuf, true)
+	}
+	cnt := 0
+	for i, p := range strings.Split(string(stackBuf[:n]), "\n\n") {
+		if i > 0 && strings.Contains(p, fn) {
+			cnt++
+		}
+	}
+	return cnt
 }
